@@ -5,6 +5,7 @@ PROP = {
         "callers obey the state machine's discipline: one goroutine, the outstanding timer is cancelled (or has elapsed) before the next is requested, live context",
         "LinearTimeoutStrategy defaults (5s/500ms, commit wait 2s/500ms) are taken from the source as the specification of 'reasonable defaults'",
         "real-scheduler test: a 24h timer is assumed not to elapse on the wall clock during one case (seconds)",
+        "real-scheduler test: a start call (one channel hand-off to the timer goroutine) that stays unserved over 45 consecutive one-second watchdog ticks is taken as never served (clause start-never-served; confirmed by replaying the case)",
     ],
     "units": [{
         "bin": "c12timer", "pkg": "tm/tmengine/internal/tmstate", "inject": [("c12timer", "tm/tmengine/internal/tmstate")],
